@@ -157,10 +157,9 @@ class LNet:
             return Keyed(MSeq([self.seq("origin")], "origins"))
         if name == "destinations":
             return Keyed(MSeq([self.seq("dest")], "destinations"))
-        if name in ("elements", "states", "next_states", "actions", "disturbances"):
-            prop, _ = self.K.lookup(name)
-            if not isinstance(prop, PropertyValue):
-                raise Unsupported(f"Network.{name} is not a property")
+        prop, _ = self.K.lookup(name)
+        if isinstance(prop, PropertyValue):
+            # any other lookup of Network: its real body, run on this network
             interp.inline_only.add(prop.fget.qualname)
             return interp.call(prop.fget, [self], {})
         raise Unsupported(f"Network.{name} on a layout network")
